@@ -336,10 +336,17 @@ func c16Geoms(c *fw.Ctx, idx int) {
 	}
 }
 
+// boundsSnap reads every dimension a Bounds answers for: Set with more values
+// than the layout has dimensions widens the stored minima and maxima without
+// changing Layout(), so the readable dimensions are probed, not assumed.
 func boundsSnap(b *geom.Bounds) []uint64 {
 	out := []uint64{uint64(b.Layout())}
-	for i := 0; i < b.Layout().Stride(); i++ {
-		out = append(out, math.Float64bits(b.Min(i)), math.Float64bits(b.Max(i)))
+	for i := 0; i < 16; i++ {
+		var lo, hi float64
+		if panicked, _ := fw.Try(func() { lo, hi = b.Min(i), b.Max(i) }); panicked {
+			break
+		}
+		out = append(out, math.Float64bits(lo), math.Float64bits(hi))
 	}
 	return out
 }
@@ -401,6 +408,18 @@ func c16CoordBounds(c *fw.Ctx, idx int) {
 	c.SetInput(map[string]any{"bounds_layout": layout.String(), "extended_with": g.String()})
 	if r.Bool() {
 		b.Extend(g.BuildFlat())
+	}
+	if r.Chance(1, 4) {
+		// Set with as many or more values than the layout has dimensions
+		k := layout.Stride() + r.Intn(3)
+		args := make([]float64, 2*k)
+		for i := range args {
+			args[i] = float64(r.Range(-100, 100))
+		}
+		b.Set(args...)
+		if k > layout.Stride() {
+			c.Count("bounds_wider_than_layout")
+		}
 	}
 	var bc *geom.Bounds
 	if c.Guard("panic", func() { bc = b.Clone() }) {
